@@ -1,6 +1,7 @@
 package main
 
 import (
+	"go/constant"
 	"go/token"
 	"strings"
 
@@ -201,7 +202,17 @@ func runC06(c *Check, a *Analysis) {
 			det := ""
 			for _, o := range p.origins(s.Val) {
 				if isGlobalLoad(o, "ErrShutdown") {
+					// the sentinel replaces the text only when the text is the shutdown message
+					g, _ := p.guardedBy(s, matchCtxErrorIsShutdownText(p))
+					if !g {
+						ok = false
+						det = "a failed call is given ErrShutdown although the server's text was not tested equal to the shutdown message: the handler's own error text is lost"
+					}
 					continue
+				}
+				if g, _ := p.guardedBy(s, matchCtxErrorIsShutdownText(p)); g {
+					ok = false
+					det = "the server's text replaces... the shutdown message is delivered as an ordinary error while ordinary texts are mapped to ErrShutdown"
 				}
 				leaf, altered := errTextOrigin(p, o)
 				if altered || !isLoadOf(leaf, "Context", "Error") {
@@ -333,4 +344,51 @@ func runC06(c *Check, a *Analysis) {
 			}
 		}
 	}
+}
+
+// matchCtxErrorIsShutdownText recognises Context.Error == <the text ErrShutdown is built from>.
+func matchCtxErrorIsShutdownText(p *Prog) condMatch {
+	return func(cond ssa.Value) (bool, bool) {
+		b, ok := cond.(*ssa.BinOp)
+		if !ok || (b.Op != token.EQL && b.Op != token.NEQ) {
+			return false, false
+		}
+		x, y := b.X, b.Y
+		if _, isC := x.(*ssa.Const); isC {
+			x, y = y, x
+		}
+		k, isC := y.(*ssa.Const)
+		if !isC || k.Value == nil || k.Value.Kind() != constant.String || !isLoadOf(p.canon(x), "Context", "Error") {
+			return false, false
+		}
+		if constant.StringVal(k.Value) != shutdownText(p) {
+			return false, false
+		}
+		return true, b.Op == token.EQL
+	}
+}
+
+// shutdownText: the string ErrShutdown is created from (package initialiser).
+func shutdownText(p *Prog) string {
+	init := p.RPC.Func("init")
+	text := ""
+	if init == nil {
+		return text
+	}
+	eachInstr(init, func(in ssa.Instruction) {
+		st, ok := in.(*ssa.Store)
+		if !ok {
+			return
+		}
+		g, ok := st.Addr.(*ssa.Global)
+		if !ok || g.Name() != "ErrShutdown" {
+			return
+		}
+		if cc, ok := p.canon(st.Val).(*ssa.Call); ok && calleeName(cc) == "errors.New" {
+			if k, ok := cc.Call.Args[0].(*ssa.Const); ok && k.Value != nil && k.Value.Kind() == constant.String {
+				text = constant.StringVal(k.Value)
+			}
+		}
+	})
+	return text
 }
